@@ -139,6 +139,10 @@ fn case(rt: &tokio::runtime::Runtime, v: &Value) -> Value {
         }
     }
 
+    if v.get("diag").and_then(|b| b.as_bool()).unwrap_or(false) {
+        // rule-by-rule trace on stderr (debugging aid only)
+        let _ = ctx.logical_plan(sql).and_then(|p| Optimizer::new().with_table_statistics(stats.clone()).optimize_with_diag(p));
+    }
     let full = guarded(|| ctx.optimized_plan(sql));
     let bound = guarded(|| ctx.logical_plan(sql));
     let reorder_only = guarded(|| {
